@@ -114,3 +114,42 @@ class SymMath(object):
   floor = staticmethod(sym_floor)
   exp = staticmethod(sym_exp)
   def __getattr__(self, n): return getattr(_math, n)
+
+
+# ---------------------------------------------------------------- zlib.crc32 (3.7)
+class CrcVal(SymInt):
+  """the CRC-32 of a (symbolic) byte string: an uninterpreted term over the bytes, remembering
+  them so that chaining crc32(b, crc32(a)) == crc32(a + b) holds by construction"""
+  __slots__ = ('data',)
+
+
+def _crc_term(bs):
+  n = len(bs)
+  f = z3.Function('crc32_%d' % n, *([z3.IntSort()] * n + [z3.IntSort()]))
+  t = f(*[b if isinstance(b, z3.ExprRef) else z3.IntVal(int(b)) for b in bs])
+  return t
+
+
+class SymZlib(object):
+  @staticmethod
+  def crc32(data, value=0):
+    import zlib
+    from .symbytes import SymBytes
+    d = SymBytes.of(data)
+    prev = ()
+    if isinstance(value, CrcVal): prev = value.data
+    elif isinstance(value, int) and value == 0: prev = ()
+    elif isinstance(value, int) and d.is_concrete(): return zlib.crc32(bytes(d.b), value)
+    else: raise NotImplementedError('crc32 seed of unknown provenance')
+    allb = tuple(prev) + tuple(d.b)
+    if all(isinstance(b, int) for b in allb):
+      v = CrcVal(z3.IntVal(zlib.crc32(bytes(allb))))
+    else:
+      t = _crc_term(allb)
+      _E().add(t >= 0, t < 2 ** 32)
+      v = CrcVal(t)
+    v.data = allb
+    return v
+  def __getattr__(self, n):
+    import zlib
+    return getattr(zlib, n)
